@@ -50,7 +50,7 @@ def histories(quick, rng):
                             P("mv2://c", 3, "text", 120, 3, emb=2), {"op": "abandon"}, {"op": "open"}, P("mv2://d", 4, "bin", 50, 4),
                             {"op": "commit"}, {"op": "close"}]))
     hs.append(("recovery2", [{"op": "create"}, P("mv2://a", 1), P("mv2://b", 2, "bin", 300, 2), P("mv2://c", 3, "text", 90, 3), {"op": "commit"},
-                             {"op": "delete", "frame": 1}, {"op": "update", "frame": 0, "meta": {"title": 2}}, {"op": "abandon"}, {"op": "open"},
+                             {"op": "delete", "frame": 0}, {"op": "update", "frame": 1, "meta": {"title": 2}}, {"op": "abandon"}, {"op": "open"},
                              {"op": "close"}]))
     hs.append(("batch", [{"op": "create"}, {"op": "begin_batch", "skip_sync": True, "no_auto": True}, P("mv2://a", 1), P("mv2://b", 2, "bin", 300, 2),
                          {"op": "commit_skip"}, {"op": "end_batch"}, P("mv2://c", 3, "text", 90, 3), P("mv2://d", 4, "bin", 50, 4), {"op": "close"}]))
